@@ -287,10 +287,18 @@ func c08(run *ev.Run, tier string) {
 				broad.Src, broad.Type = filepath.Join(dir, od), "tree"
 			}
 			cfgEntry := &gen.Content{Type: t, Src: cf, Dst: "/etc/typ/overlap/app.conf"}
-			for _, order := range [][]*gen.Content{{broad, cfgEntry}, {cfgEntry, broad}} {
+			orders := [][]*gen.Content{{broad, cfgEntry}, {cfgEntry, broad}}
+			if first != "tree" {
+				// the other way round: the file is listed on its own as a plain file (to
+				// give it a special mode) and the broad entry is the configuration one
+				typedBroad := &gen.Content{Dst: "/etc/typ/overlap", Src: broad.Src, Type: t}
+				plainEntry := &gen.Content{Src: cf, Dst: "/etc/typ/overlap/app.conf", FI: &gen.FI{Mode: 0o600}}
+				orders = append(orders, []*gen.Content{plainEntry, typedBroad}, []*gen.Content{typedBroad, plainEntry})
+			}
+			for _, order := range orders {
 				s.Contents = append([]*gen.Content{s.Contents[0]}, order...)
 				for _, f := range formats {
-					run.Case(fmt.Sprintf("overlap|%s|%s|%s|%v", first, t, f, order[0] == broad), true)
+					run.Case(fmt.Sprintf("overlap|%s|%s|%s|%v|%v", first, t, f, order[0] == broad, order[0].Type == "" && order[0].FI != nil || order[1].Type == "" && order[1].FI != nil), true)
 					res := buildYAML(s.YAML(), f)
 					if res.Panic != "" {
 						run.Violate("C08/"+f+"/panic", map[string]any{"overlap": first, "type": t})
